@@ -321,7 +321,7 @@ check("C28", "internal/telemetry",
       technique="offline checker over recorded wire streams and emitter-side ID records (receiver model of JIP-3 framing), real client under fault injection at the net.Conn boundary, Go race detector",
       level_text="Stress runs of the real client under injected connection faults; every captured stream is replayed through a receiver model and matched with the IDs the emitters received. Held = no misalignment, no blocked emitter and no race report on what was explored.",
       note="In-package harness (newTCPClient, dialer). The bounded model checking mentioned in the property's quantifier is outside this technique family and is not attempted. 'Never block' is judged as: every Emit issued while the connection's Write is parked returns (watchdog 30 s, more than 10^6 times the cost of an Emit). No sleeps are injected into the client's own code (no gofail rewrite); interleavings come from GOMAXPROCS, buffer sizes, Gosched/sleep in the emitters and the fault script.",
-      shards=(8, 16), race=True, timeout=(900, 7200),
+      shards=(8, 16), race=True, timeout=(3000, 21600),
       floors={"any": {"runs": 300, "reconnects": 300, "drop_records": 300, "events_delivered": 20000, "followups_delivered": 1000, "emits_returned_while_write_stalled": 1000, "close_racing_with_emitters": 50, "dial_failures": 30, "clean_ends_with_counter_equal_to_next_seq": 50, "followups_emitted_while_the_connection_was_replaced": 40, "payloadless_events_delivered": 500}},
       assumptions=[STANDIN_VRF])
 
